@@ -26,6 +26,9 @@ DepthsOk(e) == LET d == e.measure.depths IN
   /\ e.measure.guard
 CliOk(e) == /\ e.runaway.exit = 1 /\ e.runaway.depth_error    \* an evaluation error, not 134 / 139 / a timeout
             /\ e.finite.exit = 0 /\ e.finite.ok
+            \* the same two programs arriving on standard input (blots -e)
+            /\ e.stdin_mode.runaway_exit = 1 /\ e.stdin_mode.runaway_depth_error
+            /\ e.stdin_mode.finite_exit = 0 /\ e.stdin_mode.finite_ok
 EventOk(e) == e.ev = "shape" /\ DepthsOk(e) /\ CliOk(e)
 
 Init == l = 1 /\ bad = <<>>
